@@ -10,6 +10,12 @@ from noiseref.patterns import CIPHERS, DHS, HASHES, PATTERN_NAMES, all_variants,
 from .. import core, sessions
 from ..script import Case, gen_bytes, hx
 
+def PATTERNS_MSGS(pat):
+    from noiseref.patterns import PATTERNS
+
+    return PATTERNS[pat]["msgs"]
+
+
 BIG_LENS = [65519, 65520, 65534, 65535, 65536, 65537, 65551, 66000, 70000]
 
 
@@ -314,6 +320,75 @@ class CheckC10(core.Check):
             c.op("rekey_manual", p, i=gen_bytes("rk", 32), r="-")
             c.op("rekey_manual", q, i="-", r=gen_bytes("rk", 32), flags=("sep",))
         c.info = {"cls": "tr%d" % stateless, "variant": name.split("_")[1], "dh": parsed.dh}
+        return c
+
+    # ------------------------------------------------------------ hfs build (cfg B, thorough)
+
+    def extra_cfg_plans(self):
+        if self.tier != "thorough":
+            return []
+        rnd = random.Random(self.seed * 17 + 3)
+        descs = []
+        for pat in ("NN", "XX", "IK", "NK", "X1X1", "KK", "NX", "IX"):
+            for mods in ("hfs", "psk0+hfs", "hfs+psk2"):
+                name = "Noise_%s%s_%s+Kyber1024_%s_%s" % (pat, mods, rnd.choice(DHS), rnd.choice(CIPHERS), rnd.choice(HASHES))
+                n = len(PATTERNS_MSGS(pat))
+                if "psk2" in mods and n < 2:
+                    continue
+                for k in range(n):
+                    descs.append(("hfsw", name, k, rnd.getrandbits(24)))
+                    descs.append(("hfsr", name, k, rnd.getrandbits(24)))
+        descs.append(("parse", rnd.getrandbits(32)))
+        return [("B", descs)]
+
+    def _hfs_prefix(self, c, name, seed, k):
+        base = name.replace("+Kyber1024", "")
+        f = base.split("_")
+        pat = "".join(ch for ch in f[1].split("hfs")[0].split("psk")[0] if ch.isupper() or ch.isdigit())
+        mods = [m for m in f[1][len(pat):].split("+") if m.startswith("psk")]
+        parsed = parse_name_simple("_".join([f[0], pat + "+".join(mods)] + f[2:]))
+        keys = sessions.Keys(parsed, seed)
+        for pid, ini in (("A", True), ("B", False)):
+            c.party(pid, "i" if ini else "r", name, res="D", rng="os", rec="-", **sessions.party_kwargs(parsed, keys, ini, "all"))
+        c.op("build", "A")
+        c.op("build", "B")
+        for i in range(k):
+            w, r = ("A", "B") if i % 2 == 0 else ("B", "A")
+            c.op("hs_write", w, pay="gen:3:p%d" % i, buf=sessions.BIGBUF, out="m%d" % i, flags=("q",))
+            c.op("hs_read", r, msg="$m%d" % i, buf=sessions.BIGBUF, flags=("q",))
+        return parsed
+
+    @staticmethod
+    def _hfs_lens():
+        lens = set(range(0, 3500, 13))
+        for b in (0, 32, 48, 64, 65, 81, 97, 1568, 1584, 1600, 1616, 1632, 1633, 1648, 1649, 1664, 1665, 1681, 3136, 3168, 3184, 3200, 3216, 3232, 3233, 3249, 3265, 3281):
+            lens |= {max(0, b - 1), b, b + 1, b + 15, b + 16, b + 17}
+        return sorted(lens)
+
+    def _b_hfsw(self, desc):
+        _, name, k, seed = desc
+        c = Case("hfsw-%s-%d-%d" % (name, k, seed), desc)
+        self._hfs_prefix(c, name, seed, k)
+        w = "A" if k % 2 == 0 else "B"
+        for L in self._hfs_lens():
+            c.op("hs_write", w, pay="gen:5:w", buf=L)
+        c.info = {"cls": "hfsw", "variant": name.split("_")[1], "dh": name.split("_")[2]}
+        return c
+
+    def _b_hfsr(self, desc):
+        _, name, k, seed = desc
+        c = Case("hfsr-%s-%d-%d" % (name, k, seed), desc)
+        self._hfs_prefix(c, name, seed, k)
+        w, r = ("A", "B") if k % 2 == 0 else ("B", "A")
+        c.op("hs_write", w, pay="gen:5:w", buf=sessions.BIGBUF, out="g", flags=("q",))
+        for L in self._hfs_lens():
+            c.op("hs_read", r, msg="$g~trunc:%d" % L, buf=random.Random(L).choice([0, 100]))
+            if L % 5 == 0:
+                c.op("hs_read", r, msg="zero:%d" % L, buf=100)
+        c.op("hs_read", r, msg="$g~flip:9000", buf=100)
+        c.op("hs_read", r, msg="$g", buf=0)
+        c.op("hs_read", r, msg="$g", buf=100)
+        c.info = {"cls": "hfsr", "variant": name.split("_")[1], "dh": name.split("_")[2]}
         return c
 
     # ------------------------------------------------------------ sanitizer workloads (thorough)
